@@ -6,9 +6,11 @@ import (
 	"encoding/hex"
 	"encoding/json"
 	"fmt"
-	"os"
 	"math/big"
+	"os"
+	"path/filepath"
 	"strings"
+	"time"
 
 	"go.dedis.ch/kyber/v4"
 	"go.dedis.ch/kyber/v4/pairing"
@@ -164,6 +166,23 @@ func blsReplay(c *kc.Ctx) string {
 	c.Rng = kc.NewCtx(c.Prop, c.Tier, r.Seed, c.Drv.Path).Rng
 	fmt.Printf("replaying %s: key %q, seed %d, tier %s\n", c.ReplayFile, r.Key, r.Seed, c.Tier)
 	return r.Key
+}
+
+// blsPinDriver copies the model driver next to the other build products and uses the copy for this
+// run: other builders relink lean/.lake/build/bin/kdriver while checks are running. Returns a cleanup.
+func blsPinDriver(c *kc.Ctx) func() {
+	dst := filepath.Join(kc.Root, ".build", fmt.Sprintf("kdriver_%s_%d", c.Prop, os.Getpid()))
+	for try := 0; try < 60; try++ {
+		b, err := os.ReadFile(c.Drv.Path)
+		if err == nil && len(b) > 0 {
+			if os.MkdirAll(filepath.Dir(dst), 0o755) == nil && os.WriteFile(dst, b, 0o755) == nil {
+				c.Drv.Path = dst
+				return func() { os.Remove(dst) }
+			}
+		}
+		time.Sleep(2 * time.Second)
+	}
+	return func() {}
 }
 
 // blsViolation records the failure key (for replays) and reports the violation.
